@@ -16,7 +16,8 @@ type Profile struct {
 	HeadingHows          []string // ways to author a heading ("" entries not allowed); empty = no headings
 	MaxHeadingLevel      int      // 1..9
 	Lists                bool
-	ListMaxDepth         int // deepest 0-based level
+	ListMaxDepth         int  // deepest 0-based level
+	ListJumps            bool // an item may be two levels deeper than its predecessor (in ODF: a text-less wrapper item)
 	Tables               bool
 	MaxRows, MaxCols     int
 	Spans                bool // merged regions
@@ -327,7 +328,12 @@ func (g *gen) list() *List {
 	lvl := 0
 	for i := 0; i < n; i++ {
 		if i > 0 {
+			prev := lvl
 			lvl = r.Intn(lvl + 2) // 0..prev+1
+			if g.p.ListJumps && lvl == prev+1 && r.Intn(4) == 0 {
+				lvl++ // level jump
+				g.d.Feature("list.level-jump")
+			}
 			if lvl > g.p.ListMaxDepth {
 				lvl = g.p.ListMaxDepth
 			}
